@@ -29,7 +29,42 @@ FIELD_TABLE = {
 }
 
 
+def rule_callback_kept(chk, prog):
+    """The listener callback of a connection is what cleans up per-client state when the connection ends (the UDP listeners drop the
+    client's session entry in on_error / on_finish).  on_connect is not a terminal event: it must leave the callback installed,
+    otherwise an upstream failure after establishment is never reported to the listener, the dead session entry stays, and the same
+    client is not served again after the outage until the proxy restarts."""
+    fs = [prog.body_of(f) for f in prog.fns.values() if f.crate == "redproxy_rs" and re.search(r"as context::ContextRefOps>::on_connect$", f.path)]
+    if len(fs) != 1:
+        chk.anchor_missing("callback-kept", "ContextRefOps::on_connect")
+        return
+    g = fs[0]
+    muts = []
+    reads = 0
+    for b in g.reachable:
+        for st in g.stmts(b):
+            if st["k"] != "assign":
+                continue
+            if "f:callback" in st["lhs"][1:]:
+                muts.append("assignment at %s:%s" % (g.file, (st.get("sp") or {}).get("l", "?")))
+            rv = st["rv"]
+            if rv["k"] == "ref" and "f:callback" in rv["p"][1:]:
+                if rv.get("mut"):
+                    muts.append("&mut borrow at %s:%s" % (g.file, (st.get("sp") or {}).get("l", "?")))
+                else:
+                    reads += 1
+    cbs = [c for c in g.calls if re.search(r"context::ContextCallback::on_connect$", c.path or "")]
+    ok = not muts and reads >= 1 and len(cbs) == 1
+    chk.instance("callback-kept", "%s:%s" % (g.file, g.line), "ContextRefOps::on_connect notifies the callback and leaves it installed (reads it, never takes or replaces it)",
+                 ok, "reads %d, mutations %s" % (reads, muts))
+    if not ok:
+        chk.finding("callback-kept", g.key, "callback-consumed", "", "%s:%s" % (g.file, g.line),
+                    "ContextRefOps::on_connect takes or overwrites the connection's callback (%s): on_error / on_finish no longer reach the listener, "
+                    "whose per-client session entry then stays behind a failed upstream - the client is not served again after the outage" % (muts or "callback not read"))
+
+
 def run(chk, prog):
+    rule_callback_kept(chk, prog)
     impls = [k for k in prog.impls_of.get("redproxy_rs::connectors::Connector::connect", [])]
     chk.floor("dialing", len(impls), 5 if "quic" in prog.features else 4, "Connector::connect impls")
     for k in impls:
